@@ -1,11 +1,266 @@
-/- Driver for C16 (stub — not built yet) -/
+/-
+Driver for C16: replays an implementation transcript (harness/src/c16.rs) through the Lean model
+of `Body`/`Message` (`MB.step`, ghost heap) and through the abstract value-level specification
+(`MBSpec.step`) — the very definitions the theorems in Props/C16.lean are about.
+Compared per op: the answer (Some/None/Err, value read back, header), `Message::length`, the
+channel's busy time, the number of value instances ever created (`i`) and of destructor runs
+(`d`); at the end: every instance destroyed exactly once (`multi`, `leaked`).
+-/
+import Desverif.Spec.BodySpec
 import Driver.Common
 namespace Driver.C16
-open Driver
+open Driver MB
+
+/-! ### value terms -/
+
+def digits (cs : List Char) : List Char × List Char := cs.span Char.isDigit
+
+def natOf (ds : List Char) : Option Nat :=
+  if ds.isEmpty then none else some (ds.foldl (fun n c => n * 10 + (c.toNat - '0'.toNat)) 0)
+
+def hexVal (c : Char) : Option Nat :=
+  if c.isDigit then some (c.toNat - '0'.toNat)
+  else if 'a' ≤ c ∧ c ≤ 'f' then some (c.toNat - 'a'.toNat + 10)
+  else none
+
+partial def hexBytes (cs : List Char) (acc : List Nat) : List Nat × List Char :=
+  match cs with
+  | a :: b :: rest =>
+    match hexVal a, hexVal b with
+    | some x, some y => hexBytes rest (acc ++ [x * 16 + y])
+    | _, _ => (acc, cs)
+  | _ => (acc, cs)
+
+mutual
+partial def pVal (cs : List Char) : Option (Val × List Char) :=
+  match cs with
+  | 'U' :: r => some (.unit, r)
+  | 'N' :: r => some (.none, r)
+  | 'P' :: r => pSized r Val.prim
+  | 'F' :: r => pSized r Val.fixed
+  | 'S' :: r => let (bs, r') := hexBytes r []; some (.str bs, r')
+  | 'J' :: '(' :: r => pWrap r Val.some
+  | 'K' :: '(' :: r => pWrap r Val.ok
+  | 'E' :: '(' :: r => pWrap r Val.err
+  | 'B' :: '(' :: r => pWrap r Val.boxed
+  | '[' :: r => (pList r ']' []).map fun (vs, r') => (.seq vs, r')
+  | 'T' :: '(' :: r => (pList r ')' []).map fun (vs, r') => (.tuple vs, r')
+  | 'R' :: '{' :: r => (pList r '}' []).map fun (vs, r') => (.struct vs, r')
+  | 'V' :: r =>
+    let (ds, r1) := digits r
+    match natOf ds, r1 with
+    | some k, '{' :: r2 => (pList r2 '}' []).map fun (vs, r') => (.enum k vs, r')
+    | _, _ => none
+  | _ => none
+partial def pSized (cs : List Char) (mk : Nat → Nat → Val) : Option (Val × List Char) :=
+  let (ds, r1) := digits cs
+  match natOf ds, r1 with
+  | some s, ':' :: r2 =>
+    let (ns, r3) := digits r2
+    (natOf ns).map fun n => (mk s n, r3)
+  | _, _ => none
+partial def pWrap (cs : List Char) (mk : Val → Val) : Option (Val × List Char) :=
+  match pVal cs with
+  | some (v, ')' :: r) => some (mk v, r)
+  | _ => none
+partial def pList (cs : List Char) (close : Char) (acc : List Val) : Option (List Val × List Char) :=
+  match cs with
+  | c :: r =>
+    if c = close ∧ acc.isEmpty then some ([], r)
+    else
+      match pVal cs with
+      | some (v, ',' :: r') => pList r' close (acc ++ [v])
+      | some (v, c' :: r') => if c' = close then some (acc ++ [v], r') else none
+      | _ => none
+  | [] => none
+end
+
+def parseVal (s : String) : Option Val :=
+  match pVal s.toList with
+  | some (v, []) => some v
+  | _ => none
+
+partial def showVal : Val → String
+  | .unit => "U"
+  | .prim s n => s!"P{s}:{n}"
+  | .str bs => "S" ++ String.join (bs.map fun b =>
+      let h := fun (x : Nat) => (if x < 10 then Char.ofNat (x + 48) else Char.ofNat (x + 87)).toString
+      h (b / 16) ++ h (b % 16))
+  | .fixed s n => s!"F{s}:{n}"
+  | .none => "N"
+  | .some v => s!"J({showVal v})"
+  | .ok v => s!"K({showVal v})"
+  | .err v => s!"E({showVal v})"
+  | .boxed v => s!"B({showVal v})"
+  | .seq vs => "[" ++ ",".intercalate (vs.map showVal) ++ "]"
+  | .tuple vs => "T(" ++ ",".intercalate (vs.map showVal) ++ ")"
+  | .struct vs => "R{" ++ ",".intercalate (vs.map showVal) ++ "}"
+  | .enum k vs => s!"V{k}" ++ "{" ++ ",".intercalate (vs.map showVal) ++ "}"
+
+def showOV : Option Val → String
+  | some v => showVal v
+  | none => "<undefined>"
+
+def showOut : Out → String
+  | .done => "ok" | .noSlot => "noslot" | .cloned => "cloned" | .panic => "panic"
+  | .notClonable => "none"
+  | .castOk v h => s!"ok {showOV v} id={h.id} kind={h.kind}"
+  | .castErr => "err"
+  | .content none => "none"
+  | .content (some v) => s!"some {showOV v}"
+  | .bool b => if b then "true" else "false"
+  | .length n bits => s!"len={n} bits={bits}"
+
+/-! ### transcript lines -/
+
+def parseCtor (s : String) (sizeOf : Option Nat) : Option Ctor :=
+  if s = "c" then some .plain
+  else if s = "nc" then some .nonClonable
+  else if s = "nd" then sizeOf.map Ctor.nonDebugable
+  else match s.splitOn ":" with
+    | ["wl", n] => n.toNat?.map Ctor.withLen
+    | _ => none
+
+/-- nanoseconds a channel of 8 bit/s is busy per bit -/
+def nsPerBit : Nat := 125000000
+
+/-- operation and the implementation's answer (as an `Out`) -/
+def parseLine (line : String) : Option (Op × Out × Nat × Nat) :=
+  let (lhs, rhs) := splitArrow line
+  let l := words lhs
+  let r := words rhs
+  match kvNat r "i", kvNat r "d", r.head? with
+  | some i, some d, some ans =>
+    let fin (op : Op) (o : Option Out) : Option (Op × Out × Nat × Nat) := o.map fun o => (op, o, i, d)
+    let simple (okOut : Out) : Option Out :=
+      if ans = "ok" then some okOut else if ans = "noslot" then some .noSlot else none
+    match l with
+    | ["new", tag, id, kind] =>
+      match id.toNat?, kind.toNat? with
+      | some id, some kind => fin (.new tag id kind) (simple .done)
+      | _, _ => none
+    | ["set", tag, c, ty, v] =>
+      match parseCtor c (kvNat r "size" |>.orElse fun _ => some 0), parseVal v with
+      | some c, some v => fin (.set tag c ⟨ty⟩ v) (simple .done)
+      | _, _ => none
+    | [op, src, dst] =>
+      if op = "clone" ∨ op = "tryclone" then
+        let o : Option Out :=
+          if ans = "cloned" then some .cloned else if ans = "noslot" then some .noSlot
+          else if ans = "panic" then some .panic else if ans = "none" then some .notClonable else none
+        fin (if op = "clone" then .clone src dst else .tryClone src dst) o
+      else if op = "cast" then
+        let o : Option Out :=
+          if ans = "err" then some .castErr else if ans = "noslot" then some .noSlot
+          else if ans = "ok" then
+            match r with
+            | _ :: v :: _ =>
+              match parseVal v, kvNat r "id", kvNat r "kind" with
+              | some v, some id, some kind => some (.castOk (some v) ⟨id, kind⟩)
+              | _, _, _ => none
+            | _ => none
+          else none
+        fin (.cast src ⟨dst⟩) o
+      else if op = "content" ∨ op = "contentmut" then
+        let o : Option Out :=
+          if ans = "none" then some (.content none) else if ans = "noslot" then some .noSlot
+          else if ans = "some" then
+            match r with
+            | _ :: v :: _ => (parseVal v).map fun v => .content (some (some v))
+            | _ => none
+          else none
+        fin (.content src ⟨dst⟩) o
+      else if op = "cancast" then
+        let o : Option Out :=
+          if ans = "true" then some (.bool true) else if ans = "false" then some (.bool false)
+          else if ans = "noslot" then some .noSlot else none
+        fin (.canCast src ⟨dst⟩) o
+      else none
+    | ["len", tag] =>
+      if ans = "noslot" then fin (.length tag) (some .noSlot)
+      else match kvNat r "len", kvNat r "busy" with
+        | some n, some busy =>
+          -- busy time is reported in ns for a channel of 8 bit/s; a non-multiple cannot be a bit count
+          if busy % nsPerBit = 0 then fin (.length tag) (some (.length n (busy / nsPerBit))) else none
+        | _, _ => none
+    | ["drop", tag] => fin (.drop tag) (simple .done)
+    | _ => none
+  | _, _, _ => none
+
+structure Stats where
+  castOk : Nat := 0
+  castErr : Nat := 0       -- failed cast on a message that has a body (type mismatch)
+  readOk : Nat := 0
+  readNone : Nat := 0      -- refused borrow on a message that has a body
+  clones : Nat := 0        -- clones that duplicated a body
+  refused : Nat := 0       -- clone of a non-clonable body
+  overwrites : Nat := 0    -- set on a message that already had a body
+
+def hasBody (st : MBSpec.State) (tag : String) : Bool :=
+  match lookup tag st.slots with
+  | some m => m.content.isSome
+  | none => false
+
+def multiOf (h : Heap) : Nat := (h.boxes.filter fun b => b.drops + b.moved > 1).length
+def leakedOf (h : Heap) : Nat := (h.boxes.filter fun b => b.drops + b.moved = 0).length
+
+def runCase (c : Case) : String := Id.run do
+  let hd := words c.header
+  let id := (hd[1]?).getD "?"
+  let mut ms : MB.State := {}
+  let mut ss : MBSpec.State := {}
+  let mut st : Stats := {}
+  let mut i := 0
+  for line in c.body do
+    if line.startsWith "end" then
+      let r := words line
+      match kvNat r "i", kvNat r "d", kvNat r "multi", kvNat r "leaked" with
+      | some ci, some cd, some multi, some leaked =>
+        let mf := ms.finish
+        let sf := ss.finish
+        let implS := s!"i={ci},d={cd},multi={multi},leaked={leaked}"
+        let specS := s!"i={sf.created},d={sf.dropped},multi=0,leaked=0"
+        let modelS := s!"i={mf.heap.created},d={Heap.released mf.heap.boxes},multi={multiOf mf.heap},leaked={leakedOf mf.heap}"
+        if implS != specS then
+          return s!"fail {id} op={i + 1} kind=reject line=[{line}] clause=dropped-exactly-once spec={specS} model={modelS},faults={mf.heap.faults} impl={implS}"
+        if implS != modelS || mf.heap.faults != 0 then
+          return s!"fail {id} op={i + 1} kind=diverge line=[{line}] spec={specS} model={modelS},faults={mf.heap.faults} impl={implS}"
+      | _, _, _, _ => return s!"fail {id} op={i + 1} kind=badline detail={line}"
+      continue
+    i := i + 1
+    match parseLine line with
+    | none => return s!"fail {id} op={i} kind=badline detail={line}"
+    | some (op, obs, ci, cd) =>
+      let (ms', mo) := MB.step ms op
+      let (ss', so) := MBSpec.step ss op
+      -- statistics for the non-triviality rule
+      match op, so with
+      | .cast .., .castOk .. => st := { st with castOk := st.castOk + 1 }
+      | .cast tag _, .castErr => if hasBody ss tag then st := { st with castErr := st.castErr + 1 }
+      | .content .., .content (some _) => st := { st with readOk := st.readOk + 1 }
+      | .content tag _, .content none => if hasBody ss tag then st := { st with readNone := st.readNone + 1 }
+      | .clone src _, .cloned => if hasBody ss src then st := { st with clones := st.clones + 1 }
+      | .tryClone src _, .cloned => if hasBody ss src then st := { st with clones := st.clones + 1 }
+      | .clone .., .panic => st := { st with refused := st.refused + 1 }
+      | .tryClone .., .notClonable => st := { st with refused := st.refused + 1 }
+      | .set tag .., .done => if hasBody ss tag then st := { st with overwrites := st.overwrites + 1 }
+      | _, _ => pure ()
+      let implS := s!"{showOut obs},i={ci},d={cd}"
+      let specS := s!"{showOut so},i={ss'.created},d={ss'.dropped}"
+      let modelS := s!"{showOut mo},i={ms'.heap.created},d={Heap.released ms'.heap.boxes}"
+      let detail := s!"line=[{line}] spec={specS} model={modelS},faults={ms'.heap.faults} impl={implS}"
+      if !(obs == so) || ci != ss'.created || cd != ss'.dropped then
+        return s!"fail {id} op={i} kind=reject {detail}"
+      if !(obs == mo) || ci != ms'.heap.created || cd != Heap.released ms'.heap.boxes || ms'.heap.faults != 0 then
+        return s!"fail {id} op={i} kind=diverge {detail}"
+      ms := ms'
+      ss := ss'
+  let nt := st.castOk > 0 && st.castErr > 0 && st.clones > 0 && st.readOk > 0 && st.readNone > 0
+  return s!"ok {id} nt={if nt then 1 else 0} ops={i} castok={st.castOk} casterr={st.castErr} readok={st.readOk} readnone={st.readNone} clones={st.clones} refused={st.refused} overwrites={st.overwrites}"
 
 def main (stdin : IO.FS.Stream) : IO Unit := do
   let cases ← readCases stdin
   for c in cases do
-    IO.println s!"fail {(words c.header)[1]?.getD "?"} op=0 kind=unimplemented"
+    IO.println (runCase c)
 
 end Driver.C16
